@@ -156,7 +156,7 @@ func (p *PatchSet) Apply(infile *os.File, outpath string) error {
 		return p.applyRewrite(infile, outpath)
 	}
 	outinfo, err := os.Lstat(outpath)
-	if err != nil || !canOverwrite(ininfo, outinfo) {
+	if err != nil || !canOverwrite(ininfo, outinfo) || !writable(infile) {
 		return p.applyRewrite(infile, outpath)
 	}
 	size := ininfo.Size()
